@@ -35,3 +35,18 @@ m("c07-util-uses-alloc", "C07", "composite/uniform.py",
   "return sum(child.utilisation for child in self.children) / len(", "return sum(child.allocation for child in self.children) / len(")
 m("c07-demand-from-children", "C07", "composite/uniform.py",
   "    def demand(self):\n        return self._demand", "    def demand(self):\n        return sum(c.demand for c in self.children) if self.children else self._demand")
+# ---- C08
+m("c08-lin-low-le", "C08", "controller/linear.py", "if self.target.utilisation < self.low_utilisation:", "if self.target.utilisation <= self.low_utilisation:")
+m("c08-lin-high-ge", "C08", "controller/linear.py", "elif self.target.allocation > self.high_allocation:", "elif self.target.allocation >= self.high_allocation:")
+m("c08-lin-elif-if", "C08", "controller/linear.py", "        elif self.target.allocation > self.high_allocation:", "        if self.target.allocation > self.high_allocation:")
+m("c08-lin-no-interval", "C08", "controller/linear.py", "self.target.demand += interval * self.rate", "self.target.demand += self.rate")
+m("c08-rel-else-missing", "C08", "controller/relative_supply.py", "        else:\n            self.target.demand = self.target.supply\n", "")
+m("c08-rel-le", "C08", "controller/relative_supply.py", "if self.target.utilisation < self.low_utilisation:", "if self.target.utilisation <= self.low_utilisation:")
+m("c08-range-bounds", "C08", "controller/stepwise.py", "if low <= supply < high:", "if low < supply <= high:")
+m("c08-range-unsorted", "C08", "controller/stepwise.py", "thresholds, _rules = zip(*sorted(rules))", "thresholds, _rules = zip(*rules)")
+m("c08-step-none-writes", "C08", "controller/stepwise.py", "            if demand is not None:\n                self.target.demand = demand", "            self.target.demand = demand if demand is not None else self.target.demand")
+m("c08-step-interval-arg", "C08", "controller/stepwise.py", "demand = current_rule(target, interval)", "demand = current_rule(target, 1)")
+m("c08-switch-lt", "C08", "controller/switch.py", "if demand <= self.target.demand:", "if demand < self.target.demand:")
+m("c08-switch-first-match", "C08", "controller/switch.py", "                chosen = slave\n", "                chosen = slave\n                break\n")
+m("c08-switch-no-retarget", "C08", "controller/switch.py", "        for _, slave in self._slaves:\n            slave.target = target\n", "")
+m("c08-switch-unsorted", "C08", "controller/switch.py", "self._slaves = tuple(sorted(pairwise(slaves)))", "self._slaves = tuple(pairwise(slaves))")
